@@ -162,6 +162,26 @@ def readUIntOrNone (n : Nat) : R (Option Nat) := fun bs =>
     if 64 < n then .error .other
     else if 1 < n ∧ v = 2 ^ n - 1 then .ok (none, r) else .ok (some v, r)
 
+/-! ### Reader combinators -/
+
+namespace R
+def pure {α : Type} (a : α) : R α := fun bs => .ok (a, bs)
+def fail {α : Type} (e : Err) : R α := fun _ => .error e
+def bind {α β : Type} (f : R α) (g : α → R β) : R β := fun bs =>
+  match f bs with
+  | .error e => .error e
+  | .ok (a, r) => g a r
+def map {α β : Type} (h : α → β) (f : R α) : R β := bind f fun a => pure (h a)
+def lift {α : Type} : Except Err α → R α
+  | .ok a => pure a
+  | .error e => fail e
+/-- run `f` and also return the number of bits it consumed -/
+def counted {α : Type} (f : R α) : R (α × Nat) := fun bs =>
+  match f bs with
+  | .error e => .error e
+  | .ok (a, r) => .ok ((a, bs.length - r.length), r)
+end R
+
 /-! ### Typed field programs (the objects C19 quantifies over) -/
 
 inductive Field where
